@@ -3,6 +3,7 @@ import OpacusLean.Model.Sched
   `new <sigma> <clip> <nkind> <nargs…> <ckind> <cargs…>`  kinds: `none` | `exp g` | `step g s` | `lam n f0 … f(n-1)` (table of the lambda)
   `ns` | `cs`            scheduler steps          reply: `<sigma> <clip>` (live values after the op)
   `opt`                  logical optimizer step   reply: `<sigma> <clip> <clip used> <noise std> <accounted sigma>`
+  `vopt`                 skipped physical batch of a virtual step   reply: `<sigma> <clip> <clip used>`
   `save`                 snapshot of the scheduler state_dicts (and, for the repaired variant, the live values)
   `restore`              as coded: fresh optimizer (constructor values) + fresh schedulers + load_state_dict
   `restore_live`         repaired variant: live values restored as well
@@ -29,9 +30,9 @@ structure D where
 def mk (s c : Float) (nk ck : Option (Kind Float)) : Eng Float :=
   let (s1, ns) := match nk with | some k => let (v, sc) := construct k s; (v, some sc) | none => (s, none)
   let (c1, cs) := match ck with | some k => let (v, sc) := construct k c; (v, some sc) | none => (c, none)
-  ⟨s1, c1, ns, cs, []⟩
+  ⟨s1, c1, ns, cs, [], []⟩
 
-def fresh : D := ⟨⟨0, 0, none, none, []⟩, 0, 0, none, none, none⟩
+def fresh : D := ⟨⟨0, 0, none, none, [], []⟩, 0, 0, none, none, none⟩
 
 def live (e : Eng Float) : String := s!"{floatHex e.sigma} {floatHex e.clip}"
 
@@ -56,17 +57,22 @@ def stepLine (d : D) (line : String) : D × String :=
     match e'.log.getLast? with
     | some (c, sd, a) => ({ d with e := e' }, s!"{live e'} {floatHex c} {floatHex sd} {floatHex a}")
     | none => (d, "bad-state")
+  | ["vopt"] =>
+    let e' := d.e.step .physStep
+    match e'.phys.getLast? with
+    | some c => ({ d with e := e' }, s!"{live e'} {floatHex c}")
+    | none => (d, "bad-state")
   | ["save"] => ({ d with saved := some d.e }, live d.e)
   | ["restore"] =>
     match d.saved with
     | some sv =>
       let f := mk d.s0 d.c0 d.nk d.ck
-      let e' : Eng Float := ⟨f.sigma, f.clip, sv.ns, sv.cs, d.e.log⟩
+      let e' : Eng Float := ⟨f.sigma, f.clip, sv.ns, sv.cs, d.e.log, d.e.phys⟩
       ({ d with e := e' }, live e')
     | none => (d, "bad-state")
   | ["restore_live"] =>
     match d.saved with
-    | some sv => let e' := { sv with log := d.e.log }; ({ d with e := e' }, live e')
+    | some sv => let e' := { sv with log := d.e.log, phys := d.e.phys }; ({ d with e := e' }, live e')
     | none => (d, "bad-state")
   | _ => (d, "bad-op")
 
